@@ -122,6 +122,9 @@ impl IBig {
     #[verifier::external_body] pub exec const NEG_ONE: IBig ensures Self::NEG_ONE.v() == -1 { IBig { _p: 0 } }
     #[verifier::external_body]
     pub fn is_zero(&self) -> (r: bool) ensures r == (self.v() == 0) { unimplemented!() }
+    // TRUSTED (integer/src/ibig.rs): true only for +1
+    #[verifier::external_body]
+    pub fn is_one(&self) -> (r: bool) ensures r == (self.v() == 1) { unimplemented!() }
     // TRUSTED (integer/src/sign.rs): zero is Positive
     #[verifier::external_body]
     pub fn sign(&self) -> (r: Sign) ensures r == (if self.v() < 0 { Sign::Negative } else { Sign::Positive }) { unimplemented!() }
